@@ -7,7 +7,8 @@ from typing import Dict, List, Optional, Set, Tuple
 from ..absint import AV, SAME, VIEW, Interp, Summary, Write, tensor_params_of
 from ..common import calls_named, dotted, kw, loc, norm
 from ..model import AnalysisError, ClassInfo, FunctionInfo, own_nodes
-from .util import anchor_func, facts
+from .util import anchor_func, build_cfg, facts
+from ..cfg import ENTRY, reaching_defs
 from . import opcontract
 from .c14 import is_none_value
 
@@ -198,6 +199,62 @@ def r12_3(run):
             nonfresh = [(o, r) for o, r in val.origins if not o.startswith("N:")]
             run.ob("R12.3", loc(cp, node), cp.short, f"gradient of the copy is a fresh array", not nonfresh,
                    "np.copy" if not nonfresh else "copy shares its gradient buffer with the original")
+
+    # (d) every other value store to a tensor's gradient slot, wherever it is (e.g. Tensor._op re-homing the gradient of a detached view):
+    #     the stored array must be allocated by the storing function -- never another tensor's gradient or a view of one
+    from .c14 import tensor_grad_stores
+    handled = {fi.qualname, seedf.qualname, cp.qualname} | ({gb.qualname} if gb is not None else set())
+    for sfi, mod, st, t, val, kind in tensor_grad_stores(run):
+        if sfi is None or sfi.qualname in handled or is_none_value(val) or val is None:
+            continue
+        if sfi.qualname.endswith("gru._backprop"):
+            continue  # judged at its call sites above
+        cfgs = build_cfg(run, sfi)
+        n_at = cfgs.node_for(st)
+        bad = _not_fresh(cfgs, val, n_at if n_at is not None else ENTRY, 0)
+        run.ob("R12.3", loc(sfi, st), sfi.short, f"array stored into {norm(t.value)}._grad is allocated by the storing function", bad is None,
+               "None or a fresh copy (np.copy / .copy() / np.array / *_like / astype) on every path" if bad is None else
+               f"`{norm(bad)[:50]}` may be (a view of) an array that another tensor reports as its gradient: the two gradients share one buffer, and "
+               f"Tensor.grad's cache validation (`_view_grad.base is base._grad`) can never succeed against a gradient that is itself a view")
+
+
+_FRESH_CALLS = ("copy", "array", "zeros", "ones", "empty", "full", "zeros_like", "ones_like", "empty_like", "full_like", "ascontiguousarray_")
+
+
+def _not_fresh(cfg, e, at, depth):
+    """None if `e` is None / a freshly allocated array on every path, else the offending sub-expression"""
+    if depth > 6:
+        return e
+    if isinstance(e, ast.Constant) and e.value is None:
+        return None
+    if isinstance(e, ast.IfExp):
+        return _not_fresh(cfg, e.body, at, depth + 1) or _not_fresh(cfg, e.orelse, at, depth + 1)
+    if isinstance(e, ast.Call):
+        d = dotted(e.func) or ""
+        leaf = d.split(".")[-1] if d else (e.func.attr if isinstance(e.func, ast.Attribute) else "")
+        cpk = next((k.value for k in e.keywords if k.arg == "copy"), None)
+        if cpk is not None and not (isinstance(cpk, ast.Constant) and cpk.value is True):
+            return e
+        if d.split(".")[0] in ("np", "numpy") and leaf in _FRESH_CALLS:
+            return None
+        if isinstance(e.func, ast.Attribute) and e.func.attr in ("copy", "astype") and not d.startswith(("np.", "numpy.")):
+            return None
+        return e
+    if isinstance(e, ast.BinOp):
+        return None  # array arithmetic allocates
+    if isinstance(e, ast.Name):
+        defs = reaching_defs(cfg, e.id, at)
+        if not defs or ENTRY in defs:
+            return e
+        for d_ in defs:
+            v = getattr(cfg.stmt[d_], "value", None)
+            if v is None or isinstance(cfg.stmt[d_], ast.AugAssign):
+                return e
+            r = _not_fresh(cfg, v, d_, depth + 1)
+            if r is not None:
+                return r
+        return None
+    return e
 
 
 def check(run):
